@@ -277,6 +277,18 @@ PROPS.update({
                         "start at most one transaction before the first one fanned out while it was registered, and a connection that stayed up received all of them"),
         "budget": {"quick": 40, "thorough": 900},
     },
+    "C33": {
+        "level": "fault_enumeration", "engine": "STREAM",
+        "rule": ("a CSV file for a generated bucket schema (1-40 rows, 15%: 100-200) lives on the simulated disk and is imported through the real loader.ReadMetadata / loader.CSVtoNumpyMulti loop of "
+                 "cmd/connect (each chunk written through the server); cases per file: clean at chunk sizes {1, 2, rows-1, rows, rows+1, 1e6}; a read error at EVERY byte offset (files up to 600 bytes, 4000 in "
+                 "thorough; else every row boundary and 150 sampled offsets); short reads of every size 1..64; one malformed row at every row position (one field too many, one too few, unparsable number, "
+                 "unparsable timestamp, stray quote); each case runs on a fresh disk and server; distinct_nontrivial = distinct (case kind, position, chunk size, rows, timeframe)"),
+        "faults": ["read error at every byte offset", "short reads of every size", "malformed row at every position", "chunk-size sweep"],
+        "assumptions": ["the ten-line loop of session.load around the loader functions is re-stated in the harness (the RPC client of cmd/connect is bypassed)",
+                        "expected rows are the rows the generator wrote into the file (an independent strict reading)"],
+        "explanation": "oracle: the import returns an error, or every data row of the file is stored with its values (compared through an all-time query); a file with a malformed row must produce an error; no panic",
+        "budget": {"quick": 35, "thorough": 600},
+    },
     "C09": {
         "level": "exploration", "engine": "MODEL", "rule": MODEL_RULE,
         "faults": ["none (fault-free configuration)", "graceful restart", "compression on/off", "highly compressible payload bursts"],
